@@ -32,8 +32,9 @@ func serverMissing(w *World, remote string, exempt map[string]bool) (string, boo
 		oids = append(oids, oid)
 	}
 	sort.Strings(oids)
-	w.Front.mu.Lock()
-	defer w.Front.mu.Unlock()
+	fr := w.FrontFor(remote)
+	fr.mu.Lock()
+	defer fr.mu.Unlock()
 	for _, oid := range oids {
 		if exempt[oid] {
 			continue
@@ -42,7 +43,7 @@ func serverMissing(w *World, remote string, exempt map[string]bool) (string, boo
 		if p.Size == 0 {
 			continue // the empty object is never transferred
 		}
-		data, ok := w.Srv.Store[oid]
+		data, ok := fr.Srv.Store[oid]
 		if !ok {
 			return fmt.Sprintf("object %s (size %d, paths %v) is referenced from the remote's refs but absent from the LFS server", oid[:12], p.Size, clipPaths(p.Paths)), true
 		}
@@ -77,6 +78,7 @@ func runC03(c *Ctx, faults bool) {
 		f.Verify5xx = pickRateB(t, "verify5xx", 1, 5)
 		f.Verify4xx = pickRateB(t, "verify4xx", 1, 6)
 		f.ObjError = pickRateB(t, "objerror", 1, 6)
+		f.ObjExpired = pickRateB(t, "objexpired", 1, 6)
 	}
 	w := c.NewWorld(f)
 	remote := w.InitBare("remote.git")
@@ -95,6 +97,16 @@ func runC03(c *Ctx, faults bool) {
 	if t.Bool(1, 4, "second-remote") {
 		remote2 = w.InitBare("remote2.git")
 		w.MustGit(u1, "remote", "add", "second", remote2)
+		// the second remote may have its own LFS server (remote.<name>.lfsurl
+		// instead of one lfs.url for everything)
+		if t.Bool(1, 2, "second-remote-own-lfs-server") {
+			fr2 := w.AddServer()
+			w.RemoteSrv = map[string]*Front{remote2: fr2}
+			w.MustGit(u1, "config", "--unset", "lfs.url")
+			w.MustGit(u1, "config", "remote.origin.lfsurl", w.LFSURL())
+			w.MustGit(u1, "config", "remote.second.lfsurl", fr2.Base+fr2.Srv.APIPrefix)
+			c.Probe("second-remote-own-lfs-server")
+		}
 	}
 	c.Res.Nontrivial = true
 	c.serverGC = t.Bool(1, 3, "server-gc")
@@ -174,9 +186,11 @@ func runC03(c *Ctx, faults bool) {
 				os.Remove(ObjectPath(filepath.Join(u1, ".git"), o))
 				lost = append(lost, o)
 				if t.Choose(2, "server-has-lost") == 1 {
-					w.Front.mu.Lock()
-					w.Srv.Store[o] = objs[o]
-					w.Front.mu.Unlock()
+					for _, fr := range append([]*Front{w.Front}, w.Extra...) {
+						fr.mu.Lock()
+						fr.Srv.Store[o] = objs[o]
+						fr.mu.Unlock()
+					}
 				}
 				h.log("lost local object %s", o[:12])
 			}
@@ -208,7 +222,7 @@ func doPush(c *Ctx, w *World, h *Hist, u1, remote, remote2 string, allowIncomple
 	alreadyRemote := w.ReachablePointers(target, "--all")
 	for oid := range w.ReachablePointers(u1, "--all") {
 		if _, l := local[oid]; !l {
-			if _, s := w.Srv.Store[oid]; !s {
+			if _, s := w.FrontFor(target).Srv.Store[oid]; !s {
 				if _, r := alreadyRemote[oid]; !r {
 					absent[oid] = true
 				}
@@ -288,7 +302,7 @@ func doPush(c *Ctx, w *World, h *Hist, u1, remote, remote2 string, allowIncomple
 				exempt[oid] = true
 				c.Probe("incomplete-push-allowed")
 			} else {
-				if _, onSrv := w.Srv.Store[oid]; !onSrv {
+				if _, onSrv := w.FrontFor(target).Srv.Store[oid]; !onSrv {
 					c.Violation("push-succeeded-without-object", "%v exited 0 and moved refs of %s although object %s was absent locally and on the server and lfs.allowincompletepush is false; output: %s", args, filepath.Base(target), oid[:12], firstLine(out))
 					return
 				}
@@ -308,23 +322,25 @@ func serverGC(c *Ctx, w *World, remotes ...string) bool {
 	if !c.serverGC {
 		return false
 	}
-	keep := map[string]bool{}
-	for _, r := range remotes {
-		if r == "" {
-			continue
-		}
-		for oid := range w.ReachablePointers(r, "--all") {
-			keep[oid] = true
-		}
-	}
 	dropped := false
-	w.Front.mu.Lock()
-	for oid := range w.Srv.Store {
-		if !keep[oid] {
-			delete(w.Srv.Store, oid)
-			dropped = true
+	for _, fr := range append([]*Front{w.Front}, w.Extra...) {
+		keep := map[string]bool{}
+		for _, r := range remotes {
+			if r == "" || w.FrontFor(r) != fr {
+				continue
+			}
+			for oid := range w.ReachablePointers(r, "--all") {
+				keep[oid] = true
+			}
 		}
+		fr.mu.Lock()
+		for oid := range fr.Srv.Store {
+			if !keep[oid] {
+				delete(fr.Srv.Store, oid)
+				dropped = true
+			}
+		}
+		fr.mu.Unlock()
 	}
-	w.Front.mu.Unlock()
 	return dropped
 }
